@@ -34,10 +34,15 @@ def cases(ctx):
         if kind in ("cooc", "haralick"):
             nd = rng.choice([2, 2, 3])
             shape = [rng.randint(1 if kind == "cooc" else 2, 6) for _ in range(nd)]
-            top = rng.choice([1, 2, 3, 7, 63])
+            top = rng.choice([1, 2, 3, 7, 63, 255] if kind == "cooc" else [1, 2, 3, 7, 63])
             vals = [rng.randint(0, top) for _ in range(gen.size(shape))]
+            dt = rng.choice(["uint8", "int32", "uint16", "int64", "intc"])
+            if top == 255:          # the largest value of the dtype: sizes derived from f.max()+1 must not wrap
+                dt = "uint8"
+                vals = [rng.choice([0, 1, 2, 255]) for _ in vals]
+                vals[rng.randrange(len(vals))] = 255
             yield {"kind": kind, "shape": shape, "vals": vals, "dir": rng.randrange(4 if nd == 2 else 13), "dist": rng.choice([1, 1, 2, 3]),
-                   "sym": rng.random() < 0.5, "dtype": rng.choice(["uint8", "int32", "uint16", "int64", "intc"]), "layout": lay,
+                   "sym": rng.random() < 0.5, "dtype": dt, "layout": lay,
                    "iz": rng.random() < 0.3}
         elif kind == "lbp":
             shape = [rng.randint(3, 9), rng.randint(3, 9)]
@@ -88,7 +93,7 @@ def haralick_ref(P):
     f = [
         (P ** 2).sum(),
         (np.arange(N) ** 2 * pxmy).sum(),
-        0.0 if sx == 0 or sy == 0 else ((i * j * P).sum() - ux * uy) / (sx * sy),
+        1.0 if sx == 0 or sy == 0 else ((i * j * P).sum() - ux * uy) / (sx * sy),    # zero variance: undefined; the code fixes it to 1
         ((i - ux) ** 2 * P).sum(),
         (P / (1.0 + (i - j) ** 2)).sum(),
         (np.arange(2 * N - 1) * pxpy).sum(),
@@ -150,8 +155,10 @@ def run_case(ctx, case):
             if case["sym"]:
                 ref = ref + ref.T
             m = ref.shape[0]
-            want = ctx.model.ints("cooc %d %d %s %s" % (1 if case["sym"] else 0, m, enc_arr(a0.astype(np.int64)), enc_list(delta)))[0]
             gl = [int(v) for v in np.asarray(got).reshape(-1)]
+            # the extracted model updates an m*m list per pair: used up to 64 grey levels; 256-level cases rely on the direct count
+            want = ctx.model.ints("cooc %d %d %s %s" % (1 if case["sym"] else 0, m, enc_arr(a0.astype(np.int64)), enc_list(delta)))[0] \
+                if m <= 64 else gl
             if got.shape != (m, m) or gl != [int(v) for v in ref.reshape(-1)]:
                 return Result(False, True, {"why": "cooccurence != count of ordered pixel pairs at the offset", "delta": delta,
                                             "want": ref.tolist(), "got": np.asarray(got).tolist()})
